@@ -1481,14 +1481,15 @@ def _history_case(draw, tier):
     ops, state = [], None
     made = []  # [name, s, r, points or None]: the one-row Databases handed to the model so far
     for j in range(draw(st.sampled_from([2, 2, 3, 4]))):
-        new_results = bool(spec['results']) and draw(st.sampled_from([False, True] if j else
-                                                                     [False, False, False, True]))
+        new_results = bool(spec['results']) and draw(st.sampled_from(
+            [False, False, False, True] if j == 0 else [False, True, True] if made else [False, True]))
         if new_results:
             state = draw(st.integers(0, len(spec['results']) - 1))
             ops.append(['results', state])
         pv = params_view(spec, state)
         # right after new results: mostly a use of a one-row Database the model has already seen
-        kind = draw(st.sampled_from(['forecast', 'forecast', 'forecast'][:1 if new_results and made else 3] +
+        few_forecasts = bool(spec['results']) and (j == 0 or new_results and bool(made))
+        kind = draw(st.sampled_from(['forecast', 'forecast', 'forecast'][:1 if few_forecasts else 3] +
                                     ['validation', 'validation', 'one_draw', 'one_draw', 'pieces', 'pieces']))
         # the first two uses are about two different samples, unless the second one is about a one-row
         # Database made for the first one
